@@ -122,6 +122,9 @@ def run(tier, seed):
                 for label, sep in (("comment", ind + "// c"), ("blockcomment", ind + "/* c */"), ("empty", ""), ("define", "#define SEP 1")):
                     new = lines[:i] + [norm.Line([norm.P("raw", sep)], "raw")] + lines[i:]
                     vtasks.append((c["fname"], norm.render(c["pre"] + new), f"separator:{label}:before-brace-after-{lines[i - 1].kind}"))
+    from . import c02
+    for label, ln, code, text in c02.ternary_cases():
+        vtasks.append(("test.h" if "#ifndef TEST_H" in text else "test.c", text, "violating:" + label))
     vres = explore.pmap(inv_task, vtasks, chunksize=8)
     st.runs += len(vtasks)
     st.transitions += len(vtasks)
